@@ -49,7 +49,7 @@ PROPS = {
                           dict(name="builder", family="builder", profile="default", quick=900, thorough=15000, shard=150, tags=["nil", "issues", "dest", "panic"]),
                           # what a front end delivers for a key that is there: a list of one blank entry is a list, a blank scalar is absent
                           dict(name="fe", family="fe", profile="fe", quick=700, thorough=10000, tags=["nil", "issues", "dest", "panic"])]),
-    "C05": dict(theorems=["C05_catch_own_node", "C05_catch_is_local", "C05_elements_are_independent", "C05_engine_computes_semantics"], cone=ENGINE_CONE + ["Proofs/Indep.v", "Proofs/CatchP.v"], rule=ENGINE_RULE,
+    "C05": dict(theorems=["C05_catch_own_node", "C05_catch_with_transforms", "C05_catch_is_local", "C05_elements_are_independent", "C05_engine_computes_semantics"], cone=ENGINE_CONE + ["Proofs/Indep.v", "Proofs/CatchP.v"], rule=ENGINE_RULE,
                 families=[eng("engine", "C05", 1200, 20000, ["nil", "issues", "dest", "panic"]),
                           # Catch next to the other modifiers, called in every order, on every primitive kind
                           dict(name="builder", family="builder", profile="default", quick=700, thorough=12000, shard=150, tags=["nil", "issues", "dest", "panic"])]),
@@ -85,7 +85,7 @@ PROPS = {
                           # the map of a call after arbitrary earlier calls (Collect helpers, undecodable bodies): still keyed by its own issues' paths
                           dict(name="history", family="history", profile="C07", quick=400, thorough=5000, tags=["issues", "first", "isolation", "issue_aliased", "panic"]),
                           dict(name="fe", family="fe", profile="fe", quick=700, thorough=8000, tags=["issues", "first", "panic", "nested_source_tag"])]),
-    "C12": dict(theorems=["C12_engine_computes_semantics", "C12_test_receives_the_tested_value", "C12_pts_prefix_in_order", "C12_pts_skipped_when_an_issue_exists", "C12_preprocess_error_skips_schema", "C12_preprocess_type_mismatch_skips_schema", "C12_ctx_values_are_this_calls", "C12_ctx_get_is_the_calls_last_option", "C12_ctx_last_call_wins", "C12_ctx_other_keys_nil"], cone=ENGINE_CONE + ["Proofs/ExactP.v", "Model/Objects.v", "Proofs/ObjectsP.v", "Model/Options.v", "Proofs/OptionsP.v"], rule=ENGINE_RULE,
+    "C12": dict(theorems=["C12_engine_computes_semantics", "C12_test_receives_the_tested_value", "C12_pts_prefix_in_order", "C12_pts_skipped_when_an_issue_exists", "C12_preprocess_error_skips_schema", "C12_preprocess_type_mismatch_skips_schema", "C12_ctx_values_are_this_calls", "C12_ctx_get_is_the_calls_last_option", "C12_ctx_last_call_wins", "C12_ctx_other_keys_nil", "C12_transforms_of_a_catching_node"], cone=ENGINE_CONE + ["Proofs/CatchP.v", "Proofs/ExactP.v", "Model/Objects.v", "Proofs/ObjectsP.v", "Model/Options.v", "Proofs/OptionsP.v"], rule=ENGINE_RULE,
                 families=[eng("engine", "C12", 1200, 20000, ["calls", "args", "ctx", "haserr", "panic"]),
                           # callbacks after arbitrary earlier calls (undecodable request bodies included): still their own node, still this call's context
                           dict(name="history", family="history", profile="C07", quick=500, thorough=6000, tags=["calls", "args", "ctx", "panic"]),
